@@ -298,6 +298,105 @@ def scenario(run, rng, origin, chain, final_mode, pv, hook_log):
                 pass
 
 
+def foreign_connect_case(run, rng, pv, idx):
+    """Delay injection: while the failing networking thread is inside an
+    exception handler, another thread enters connect() (and is held there for a
+    moment, inside the connection's lock).  The failing thread must then *not*
+    tear down the connection the other thread has started."""
+    import time
+    from minecraft.networking.packets import clientbound
+    codec = codec_for(pv)
+    state = {'accepted': 0}
+
+    def handler(io):
+        state['accepted'] += 1
+        hs = scripts.read_handshake(io)
+        if hs is None:
+            return
+        scripts.login_offline(io, pv, None, codec)
+        if io.index == 0:
+            cid, cp = codec.encode('cb_chat', {
+                'json': '{"text":"boom"}', 'position': 0,
+                'sender': '00000000-0000-0000-0000-000000000001'})
+            io.send_frame(cid, cp)
+            try:
+                io.wait_eof(8.0)
+            except mcserver.ScriptTimeout:
+                pass
+            return
+        kid, kp = codec.encode('cb_keep_alive', {'id': 77})
+        io.send_frame(kid, kp)
+        try:
+            fr = io.recv_frame(6.0)
+            if fr is not None:
+                nm, vals = codec.decode('play', fr[0], fr[1])
+                state['second_alive'] = nm == 'sb_keep_alive' and \
+                    vals['id'] == 77
+        except mcserver.ScriptTimeout:
+            state['second_alive'] = False
+        did, dp = codec.encode('play_disconnect', {'reason': '"bye"'})
+        io.send_frame(did, dp)
+        try:
+            io.wait_eof(6.0)
+        except mcserver.ScriptTimeout:
+            pass
+
+    server = mcserver.Server(handler)
+    in_handler, main_in_connect = threading.Event(), threading.Event()
+    K = pc.monitored_connection_class()
+    final_mode = rng.choice(('none-with-handler', 'returns', 'false'))
+    seen = []
+
+    def final(exc, info):
+        seen.append(exc)
+    conn = K('127.0.0.1', server.port, username='vfuser',
+             allowed_versions={pv}, handle_exception={
+                 'none-with-handler': None, 'returns': final,
+                 'false': False}[final_mode])
+    w = {'pv': pv, 'final': final_mode, 'case': idx}
+    try:
+        def boom(packet):
+            raise E1('fault')
+        conn.register_packet_listener(boom, clientbound.play.ChatMessagePacket)
+
+        def h(exc, info):
+            in_handler.set()
+            main_in_connect.wait(3.0)
+            time.sleep(0.01)
+        conn.register_exception_handler(h)
+        conn.connect()
+        if not in_handler.wait(10.0):
+            return 'fault never reached the handler'
+
+        def hook():
+            main_in_connect.set()
+            time.sleep(0.06)          # hold connect() open inside the lock
+        conn.vf_connect_hook = hook
+        try:
+            conn.connect()
+        except Exception as e:
+            run.violation('foreign-connect/refused', 'connect() from another '
+                          'thread was refused although the failing thread was '
+                          'already interrupted', dict(w, error=repr(e)))
+            return None
+        conn.vf_connect_hook = None
+        if not pc.wait_idle(conn, 20.0):
+            return 'threads alive: ' + pc.dump_threads()
+        server.join(10.0)
+        run.count('foreign_connects')
+        if state['accepted'] != 2 or state.get('second_alive') is not True:
+            run.violation('containment/foreign-connection-torn-down', 'the '
+                          'failing networking thread tore down the connection '
+                          'another thread had started meanwhile (or it never '
+                          'worked)', dict(w, accepted=state['accepted'],
+                                          alive=state.get('second_alive'),
+                                          connected=conn.connected))
+        return None
+    finally:
+        server.stop()
+        pc.safe_disconnect(conn)
+
+
 def gen_chain(rng):
     pool = [(E0,), (E1,), (E2,), (F0,), (Exception,), (), (E2, F0),
             (KeyError, ValueError), (LookupError,), (OSError,),
@@ -382,8 +481,21 @@ def run(run):
                                     'chain': [(h['id'], [t.__name__ for t in
                                                          h['types']],
                                                h['behaviour']) for h in chain]})
+        for i in range(40 if thorough else 8):
+            if not run.mine(i):
+                continue
+            err = None
+            for attempt in range(3):
+                err = foreign_connect_case(run, rng, rng.choice((757, 404,
+                                                                 340)), i)
+                if err is None:
+                    break
+            run.case(('foreign-connect', i))
+            if err:
+                run.inconclusive_because('foreign connect %d: %s' % (i, err))
     finally:
         threading.excepthook = old_hook
+    run.require('foreign_connects', 2)
     run.require('faults_injected', 20)
     run.require('origins', len(ORIGINS))
     run.require('reuse_checked', 10)
